@@ -104,6 +104,7 @@ fn check_packet<C: Codec>(
     match guarded(|| C::encode(p)) {
         Ok(Ok(vb)) => {
             let bytes = vb.as_ref();
+            out.mix(&bytes[..bytes.len().min(4096)]);
             if let Some(d) = declared {
                 if d != bytes.len() {
                     out.violate(
